@@ -87,7 +87,8 @@ func (t *HarfbuzzShaper) Shape(input Input) Output {
 
 	// reuse font when possible
 	font, ok := t.fonts.Get(input.Face.Font)
-	if !ok { // create a new font and cache it
+	// the cached harfbuzz.Font captures a face (variations, ppem): it is only valid for that face
+	if !ok || font.Face() != input.Face { // create a new font and cache it
 		font = harfbuzz.NewFont(input.Face)
 		t.fonts.Put(input.Face.Font, font)
 	}
